@@ -1,10 +1,233 @@
 import SV.Driver.Util
-/- svdriver_c07: line protocol for the C07 model (stub until the model is built). -/
-namespace SV.Driver.C07
+import SV.Model.Overlay
+/-
+svdriver_c07: line protocol for the C07 model (SV.Overlay).  Strings travel hex-encoded (`-` = empty).
 
-def step (s : Unit) : List String → Unit × String
+  consts                                           -> the constants the model shares with node.go
+  layer <base> <all|trusted|user> <digest> <size> <fetched>   -> ok      (forgets all nodes)
+  node <key> <root 0|1> <id> <mode> <rdev> <xattrs> <children>  -> ok     (fresh caches)
+        xattrs   = - | k=v,k=v          children = - | name:id:mode:rdev,…
+  readdir <key>                                    -> eio | ok name:mode:ino,…
+  lookup <key> <name> <adopt 0|1>                  -> enoent | eio | state … | node … | wh …
+  getattr <key>                                    -> eio | ok <mode> <ino> <rdev>
+  getxattr <key> <name> <destlen>                  -> ok <n> <val> | erange <n> | enodata
+  listxattr <key> <destlen>                        -> ok <n> name,… | erange <n>
+  st.readdir | st.lookup <name> | st.report <msg> | st.fetched <n> | st.read
+  stk.begin <trusted|user> <all|trusted|user>      -> ok
+  stk.layer <path:kind:id:mode:rdev:xattrs;…>      -> ok          (kind d|f; parents first)
+  stk.merged <path>  |  stk.applied <path>         -> none | file L<layer> <mode> | dir L<layer> <mode>
+-/
+namespace SV.Driver.C07
+open SV.Driver SV.Overlay
+
+structure St where
+  info : LayerInfo := default
+  nodes : List (String × Dir × NodeSt) := []
+  kx : KX := .trusted
+  som : OpaqueMode := .all
+  layers : List Tree := []     -- bottom first
+
+def hx (s : Str) : String := hexStr (String.ofList s)
+def unhx? (s : String) : Option Str := (unhexStr? s).map String.toList
+
+def parseMode? : String → Option OpaqueMode
+  | "all" => some .all
+  | "trusted" => some .trusted
+  | "user" => some .user
+  | _ => none
+
+def parseKX? : String → Option KX
+  | "trusted" => some .trusted
+  | "user" => some .user
+  | _ => none
+
+def parseXattrs? (s : String) : Option (List (Str × Str)) :=
+  if s = "-" then some [] else
+  (s.splitOn ",").mapM fun kv =>
+    match kv.splitOn "=" with
+    | [k, v] => do
+      let k ← unhx? k
+      let v ← unhx? v
+      some (k, v)
+    | _ => none
+
+def parseChild? (s : String) : Option Child :=
+  match s.splitOn ":" with
+  | [n, id, mode, rdev] => do
+    let n ← unhx? n
+    let id ← parseNat? id
+    let mode ← parseNat? mode
+    let rdev ← parseNat? rdev
+    some ⟨n, id, mode, rdev⟩
+  | _ => none
+
+def parseChildren? (s : String) : Option (List Child) :=
+  if s = "-" then some [] else (s.splitOn ",").mapM parseChild?
+
+def showEnts (es : List DirEnt) : String :=
+  if es.isEmpty then "-" else ",".intercalate (es.map fun e => s!"{hx e.name}:{e.mode}:{e.ino}")
+
+def showGa : Option (Nat × Nat × Nat) → String
+  | some (m, i, r) => s!"{m}:{i}:{r}"
+  | none => "eio"
+
+def showLRes (r : LRes) : String :=
+  match r with
+  | .enoent => "enoent"
+  | .eio => "eio"
+  | .state mode ino => s!"state stype={r.stype} amode={mode} ino={ino} rdev=0 ga={showGa (getattrOf r)}"
+  | .node _ mode ino rdev => s!"node stype={r.stype} amode={mode} ino={ino} rdev={rdev} ga={showGa (getattrOf r)}"
+  | .whiteout _ amode ino rdev => s!"wh stype={r.stype} amode={amode} ino={ino} rdev={rdev} ga={showGa (getattrOf r)}"
+
+def findNode (s : St) (k : String) : Option (Dir × NodeSt) := (s.nodes.find? (·.1 = k)).map (·.2)
+
+def setNode (s : St) (k : String) (d : Dir) (ns : NodeSt) : St :=
+  { s with nodes := (k, d, ns) :: s.nodes.filter (·.1 ≠ k) }
+
+def showNode : Option Node → String
+  | none => "none"
+  | some (.file a) => s!"file L{a.tag} {a.mode}"
+  | some (.dir a) => s!"dir L{a.tag} {a.mode}"
+
+/-- Driver-only: put `n` at path `p` below `t` (parents exist, declared first). -/
+partial def insertAt (t : Tree) (p : List Str) (n : Tree) : Option Tree :=
+  match t, p with
+  | _, [] => none
+  | .file _, _ => none
+  | .dir a kids, [x] => some (.dir a (kids ++ [(x, n)]))
+  | .dir a kids, x :: rest =>
+    let rec go : List (Str × Tree) → Option (List (Str × Tree))
+      | [] => none
+      | (y, c) :: ks =>
+        if y = x then (insertAt c rest n).map fun c' => (y, c') :: ks
+        else (go ks).map fun ks' => (y, c) :: ks'
+    (go kids).map fun ks => .dir a ks
+
+def splitPath (s : Str) : List Str :=
+  let rec go : List Char → List Char → List Str
+    | [], cur => [cur.reverse]
+    | c :: cs, cur => if c = '/' then cur.reverse :: go cs [] else go cs (c :: cur)
+  (go s []).filter (· ≠ [])
+
+def parseEntry? (tag : Nat) (s : String) : Option (List Str × Tree) :=
+  match s.splitOn ":" with
+  | [p, kind, id, mode, rdev, xs] => do
+    let p ← unhx? p
+    let id ← parseNat? id
+    let mode ← parseNat? mode
+    let rdev ← parseNat? rdev
+    let xs ← parseXattrs? xs
+    let a : Attr := ⟨id, mode, rdev, xs, tag⟩
+    if kind = "d" then some (splitPath p, .dir a [])
+    else if kind = "f" then some (splitPath p, .file a)
+    else none
+  | _ => none
+
+def buildLayer (tag : Nat) (s : String) : Option Tree := do
+  let es ← (s.splitOn ";").mapM (parseEntry? tag)
+  match es with
+  | ([], .dir a _) :: rest =>
+    rest.foldlM (fun t (e : List Str × Tree) => insertAt t e.1 e.2) (Tree.dir a [])
+  | _ => none
+
+def step (s : St) : List String → St × String
+  | ["consts"] =>
+    (s, s!"wh={hx whiteoutPrefix} opq={hx opaqueMarker} state={hx stateDirName} pl={hx prefetchLandmark} " ++
+        s!"npl={hx noPrefetchLandmark} toc={hx tocTarName} " ++
+        s!"xall={",".intercalate ((opaqueXattrs .all).map hx)} xtrusted={",".intercalate ((opaqueXattrs .trusted).map hx)} " ++
+        s!"xuser={",".intercalate ((opaqueXattrs .user).map hx)} val={hx opaqueXattrValue} " ++
+        s!"ifchr={S_IFCHR} sfmode={statFileMode} sdmode={stateDirMode}")
+  | ["layer", base, om, dg, size, fetched] =>
+    match parseNat? base, parseMode? om, unhx? dg, parseNat? size, parseNat? fetched with
+    | some base, some om, some dg, some size, some fetched =>
+      ({ s with info := { base := base, om := om, digest := dg, size := size, fetched := fetched }, nodes := [] }, "ok")
+    | _, _, _, _, _ => (s, "bad-op")
+  | ["node", key, root, id, mode, rdev, xs, cs] =>
+    match parseNat? id, parseNat? mode, parseNat? rdev, parseXattrs? xs, parseChildren? cs with
+    | some id, some mode, some rdev, some xs, some cs =>
+      if root ≠ "0" ∧ root ≠ "1" then (s, "bad-op") else
+      (setNode s key ⟨root = "1", s.info.base, id, mode, rdev, xs, cs⟩ {}, "ok")
+    | _, _, _, _, _ => (s, "bad-op")
+  | ["readdir", key] =>
+    match findNode s key with
+    | some (d, ns) =>
+      let (ns', r) := readdirSt d ns
+      (setNode s key d ns', match r with | some es => s!"ok {showEnts es}" | none => "eio")
+    | none => (s, "bad-op")
+  | ["lookup", key, name, ad] =>
+    match findNode s key, unhx? name with
+    | some (d, ns), some name =>
+      if ad ≠ "0" ∧ ad ≠ "1" then (s, "bad-op") else
+      let (ns', r) := lookupSt d ns name
+      let ns'' := if ad = "1" then adopt d ns' name r else ns'
+      (setNode s key d ns'', showLRes r)
+    | _, _ => (s, "bad-op")
+  | ["getattr", key] =>
+    match findNode s key with
+    | some (d, _) => (s, match getattr d with | some (m, i, r) => s!"ok {m} {i} {r}" | none => "eio")
+    | none => (s, "bad-op")
+  | ["getxattr", key, name, dl] =>
+    match findNode s key, unhx? name, parseNat? dl with
+    | some (d, _), some name, some dl =>
+      (s, match getxattr s.info.om d name dl with
+          | .ok n v => s!"ok {n} {hx v}"
+          | .erange n => s!"erange {n}"
+          | .enodata => "enodata")
+    | _, _, _ => (s, "bad-op")
+  | ["listxattr", key, dl] =>
+    match findNode s key, parseNat? dl with
+    | some (d, _), some dl =>
+      (s, match listxattr s.info.om d dl with
+          | .ok n names => s!"ok {n} {if names.isEmpty then "-" else ",".intercalate (names.map hx)}"
+          | .erange n => s!"erange {n}")
+    | _, _ => (s, "bad-op")
+  | ["st.readdir"] => (s, s!"ok {showEnts (stateReaddir s.info)}")
+  | ["st.lookup", name] =>
+    match unhx? name with
+    | some name =>
+      (s, match stateLookup s.info name with
+          | .ok (m, i) => s!"ok {m} {i}"
+          | .error .enoent => "enoent"
+          | .error _ => "eio")
+    | none => (s, "bad-op")
+  | ["st.report", msg] =>
+    match unhx? msg with
+    | some msg => ({ s with info := { s.info with err := msg } }, "ok")
+    | none => (s, "bad-op")
+  | ["st.fetched", n] =>
+    match parseNat? n with
+    | some n => ({ s with info := { s.info with fetched := n } }, "ok")
+    | none => (s, "bad-op")
+  | ["st.read"] =>
+    (s, match statFields s.info with
+        | none => "eio"
+        | some fs =>
+          let keys := sortBy strLe (fs.map (·.1))
+          let get (k : String) : String :=
+            match lookupKid fs k.toList with
+            | some (.str v) => hx v
+            | some (.int n) => toString n
+            | some .float => "float"
+            | none => "missing"
+          s!"keys={",".intercalate (keys.map String.ofList)} digest={get "digest"} size={get "size"} fetchedSize={get "fetchedSize"} error={get "error"}")
+  | ["stk.begin", kx, om] =>
+    match parseKX? kx, parseMode? om with
+    | some kx, some om => ({ s with kx := kx, som := om, layers := [] }, "ok")
+    | _, _ => (s, "bad-op")
+  | ["stk.layer", es] =>
+    match buildLayer (s.layers.length + 1) es with
+    | some t => ({ s with layers := s.layers ++ [t] }, "ok")
+    | none => (s, "bad-op")
+  | ["stk.merged", p] =>
+    match unhx? p with
+    | some p => (s, showNode (overlayMerge s.kx (s.layers.map (serveRoot s.som)) (splitPath p)))
+    | none => (s, "bad-op")
+  | ["stk.applied", p] =>
+    match unhx? p with
+    | some p => (s, showNode (ociRootFs s.layers (splitPath p)))
+    | none => (s, "bad-op")
   | _ => (s, "bad-op")
 
 end SV.Driver.C07
 
-def main : IO Unit := SV.Driver.loop SV.Driver.C07.step ()
+def main : IO Unit := SV.Driver.loop SV.Driver.C07.step ({} : SV.Driver.C07.St)
